@@ -102,10 +102,12 @@ def judge(ctx, cases, diffs, corr_name, shrink=None, escalate=None,
                 except Exception:  # shrinking is best effort
                     cc = c
             detail2 = detail
-            for cl, d in cc.monitor:
-                if cl == clause:
-                    detail2 = d
-                    break
+            if cc is not c:
+                # the shrunk case carries its own wording of the same clause
+                for cl, d in cc.monitor:
+                    if cl == clause and match_known(ctx.prop, cl, d, cc.data) is None:
+                        detail2 = d
+                        break
             violation(ctx, "%s: %s" % (clause, detail2),
                       {"kind": "monitor", "clause": clause, "detail": detail2,
                        "case": cc.data, "impl_trace": cc.impl_out,
